@@ -23,7 +23,9 @@ RULE = ("op histories over a byte-rich name pool (bytes 0x01-0xff except '/'), <
         "generated manifest text (repeated/adjacent locators, hints, zero-length blocks and tokens, split files, "
         "markers), with marshal/sync/flush sprinkled in and Keep failure scripts: none | k-th write | random bits "
         "per op | background-only | final-save-only | all-fail | held (a background flush whose Keep writes stay in "
-        "flight while truncates/writes/renames run); plus pure load->marshal cases and malformed texts; "
+        "flight while truncates/writes/renames run) | gated (a save with >= 2 writers during which one Keep write fails "
+        "while successful ones are still in flight, then overwrites/truncates of the files it covered); plus pure "
+        "load->marshal cases and malformed texts; "
         "non-trivial = at least one successful save of a tree holding data, distinct = distinct case line")
 ASSUMPTIONS = [
     "background flushes are observed at quiescence (driver waits after every op); with a failure script the "
@@ -547,7 +549,7 @@ def replay(case, impl):
     if len(parts) != len(ops) + 1:
         return "result count %d for %d ops" % (len(parts) - 1, len(ops))
     for i, (op, r) in enumerate(zip(ops, parts[1:])):
-        if op in ("marshal", "sync"):
+        if op in ("marshal", "sync") or op.startswith("hmarshal,"):
             d = parse_save(r)
             if d is None:
                 return "op %d (%s): unparsable result %s" % (i, op, r[:100])
@@ -803,7 +805,7 @@ def _pick_path(rng, fs, want, odd):
 
 
 FLAGSETS = ["R", "W", "B", "Bc", "Wc", "Bct", "Wct", "Wa", "Ba", "Bca", "Wca", "Bcx", "Wcx", "Bt", "Wt", "Bcd"]
-MODES = ["none", "none", "none", "kth", "bits", "background", "final", "allfail", "held"]
+MODES = ["none", "none", "none", "kth", "bits", "background", "final", "allfail", "held", "gated"]
 
 
 def _script(rng):
@@ -822,7 +824,7 @@ def _gen_case(rng, tier, maxb=None, nops=None, mode=None, odd=None, del7f=False)
     maxb = maxb or rng.choice(BLOCKS)
     mode = mode or rng.choice(MODES)
     odd = rng.choice([0.0, 0.15, 0.15, 0.5]) if odd is None else odd
-    cw = 4 if mode == "none" else 1000 if mode == "held" else 1
+    cw = 4 if mode == "none" else 1000 if mode == "held" else rng.choice([2, 4, 1000, 1000]) if mode == "gated" else 1
     holding = [False]      # mode "held": Keep writes of a background flush are in flight
     text, blocks = (_gen_manifest(rng, odd) if rng.random() < 0.4 else (b"", []))
     fs = PlainFS()
@@ -912,13 +914,19 @@ def _gen_case(rng, tier, maxb=None, nops=None, mode=None, odd=None, del7f=False)
         elif r < 0.88:
             ops.append("%s,%s" % (rng.choice(["remove", "remove", "removeall"]), _hp(_pick_path(rng, fs, "any", odd))))
             sim(ops[-1])
-        elif r < 0.92 or (mode == "held" and r < 0.97 and not holding[0]):
+        elif r < 0.92 or (mode in ("held", "gated") and r < 0.97 and not holding[0]):
             if mode == "bits" and rng.random() < 0.5:
                 ops.append("keep," + _script(rng))
             p = _pick_path(rng, fs, "dir", odd) if rng.random() < 0.5 else b""
-            if mode == "held" and not holding[0] and rng.random() < 0.8:
-                # hold the Keep writes of this background flush while a few more ops run
-                ops.append("hflush,%s,%d" % (_hp(p if rng.random() < 0.3 else b""), rng.choice([1, 1, 0])))
+            if mode in ("held", "gated") and not holding[0] and rng.random() < 0.8:
+                if mode == "held":
+                    # hold the Keep writes of this background flush while a few more ops run
+                    ops.append("hflush,%s,%d" % (_hp(p if rng.random() < 0.3 else b""), rng.choice([1, 1, 0])))
+                else:
+                    # a save with several Keep writes under way, one of which fails while successful ones are
+                    # still in flight; the ops that follow must find the files exactly as the failed save left them
+                    ops.append("hmarshal," + rng.choice(["k1", "k2", "k2", "k3", "k4", "b01", "b011", "b0101", "b001",
+                                                         "ok", _script(rng)]))
                 holding[0] = True
                 for _ in range(rng.randint(1, 6)):
                     hs2 = open_handles()
